@@ -48,7 +48,8 @@ def citations : List (Lean.Name × String × List String) := [
     ["sam.Aux.Kind", "sam.Aux.Type", "sam.Aux.Tag", "sam.Aux.String", "sam.Aux.Value", "sam.samAux.String", "sam.Aux.matches"]),
   (``Hts.Props.C11.parseAuxBam_accessors_safe, "ops",
     ["sam.Aux.Kind", "sam.Aux.Type", "sam.Aux.Tag", "sam.Aux.String", "sam.Aux.Value", "sam.samAux.String", "sam.Aux.matches"]),
-  (``Hts.Props.C11.parseAuxBam_total, "ops", ["bam.parseAux"]),
+  (``Hts.Props.C11.parseAuxBam_total, "ops", ["bam.parseAux", "bam.decodeHex"]),
+  (``Hts.Props.C11.decodeHex_total, "ops", ["bam.decodeHex"]),
   (``Hts.Props.C11.itf8_decode_total, "ops", ["cram/encoding/itf8.Decode"]),
   (``Hts.Props.C11.ltf8_decode_total, "ops", ["cram/encoding/ltf8.Decode"]),
   (``Hts.Props.C11.itf8_stream_total, "ops", ["cram.errorReader.itf8"]),
